@@ -231,6 +231,10 @@ func (m *machine) queryCallback(qe *qevent) func(res.QueryRequest) {
 		case "twice":
 			qr.NotFound()
 			qr.InvalidQuery("second")
+		case "replytimeout":
+			// a timeout announced after the answer was given changes nothing about the answer
+			qr.NotFound()
+			qr.Timeout(time.Duration(b.N) * time.Millisecond)
 		}
 	}
 }
@@ -606,7 +610,7 @@ func checkResponse(rq *qrequest, data []byte, pre [][]byte) string {
 		}
 	case "errorplain":
 		return wantErr(res.CodeInternalError)
-	case "notfound", "twice", "panicafter", "eventsnotfound":
+	case "notfound", "twice", "panicafter", "eventsnotfound", "replytimeout":
 		return wantErr(res.CodeNotFound)
 	case "eventspanic":
 		return wantErr(res.CodeInternalError)
@@ -635,7 +639,7 @@ var gateSets = [][]string{
 }
 
 func genBehav(t *rapid.T) QBehav {
-	b := QBehav{Op: rapid.SampledFrom([]string{"model", "collection", "events", "nothing", "error", "errorplain", "notfound", "invalidquery", "timeoutreply", "panic", "panicafter", "twice", "eventsnotfound", "eventspanic", "nothing", "events"}).Draw(t, "bop")}
+	b := QBehav{Op: rapid.SampledFrom([]string{"model", "collection", "events", "nothing", "error", "errorplain", "notfound", "invalidquery", "timeoutreply", "panic", "panicafter", "twice", "eventsnotfound", "eventspanic", "nothing", "events", "replytimeout"}).Draw(t, "bop")}
 	switch b.Op {
 	case "model":
 		v := gen.Val{Kind: "json", JSON: rapid.SampledFrom([]string{`{"a":1}`, `{}`, `{"x":{"rid":"svc.q.1"},"s":"é\"\\"}`}).Draw(t, "model")}
@@ -649,7 +653,7 @@ func genBehav(t *rapid.T) QBehav {
 			v = gen.Val{Kind: "func"}
 		}
 		b.V = &v
-	case "events", "timeoutreply", "eventsnotfound", "eventspanic":
+	case "events", "timeoutreply", "eventsnotfound", "eventspanic", "replytimeout":
 		b.N = rapid.IntRange(0, 5000).Draw(t, "n")
 	case "error", "errorplain", "invalidquery":
 		b.S = rapid.SampledFrom([]string{"", "msg", "é\"x"}).Draw(t, "s")
